@@ -1119,6 +1119,28 @@ func (g *FuncGen) trCall(env *Env, x *ECall) Val {
 	// spec function
 	sf := g.prog.SpecFuncs[x.Fun]
 	if sf == nil {
+		// v.f(args): application of a function field declared `ghost purefunc`
+		if k := strings.LastIndex(x.Fun, "."); k > 0 {
+			if base, ok := g.lookupName(env, x.Fun[:k]); ok && base.GT != nil {
+				if st, sname, ok := c.structOf(derefType(base.GT)); ok && g.isPureFuncField(sname, x.Fun[k+1:]) {
+					f, _ := findField(st, x.Fun[k+1:])
+					sig, _ := f.Type().Underlying().(*types.Signature)
+					if f != nil && sig != nil && sig.Results().Len() == 1 {
+						fv := g.trField(env, &EField{X: &EIdent{Name: x.Fun[:k]}, Name: x.Fun[k+1:]})
+						var args []Val
+						for i, a := range x.Args {
+							v := g.tr(env, a)
+							if i < sig.Params().Len() {
+								v = g.coerceTo(v, sig.Params().At(i).Type())
+							}
+							args = append(args, v)
+						}
+						rt := sig.Results().At(0).Type()
+						return Val{T: g.pureFieldApp(sname, x.Fun[k+1:], fv, args, rt), S: c.sortOf(rt), GT: rt}
+					}
+				}
+			}
+		}
 		g.unsup("unknown spec function %s", x.Fun)
 	}
 	if len(sf.Params) != len(x.Args) {
